@@ -1,5 +1,6 @@
 import SctpVerif.Driver.Rq
 import SctpVerif.Driver.GenX
+import SctpVerif.Driver.E2E
 /-!
 Driver: replays implementation logs (`<comp> <op…> -> <impl result>`) through the L0 models and
 evaluates the executable property predicates on the implementation's results.
@@ -17,6 +18,7 @@ structure Counters where
 
 structure All where
   rq : Rq.St := {}
+  e2e : E2E.St := {}
   desync : List String := []
   cnt : Counters := {}
 
@@ -27,11 +29,13 @@ def splitArrow (toks : List String) : List String × List String :=
     | t :: rest => go (t :: acc) rest
   go [] toks
 
-def stepComp (a : All) (comp : String) (op impl : List String) : All × String × Option String :=
+/-- returns (state, model result or none when the component has no L0 result for this line, violations) -/
+def stepComp (a : All) (comp : String) (op impl : List String) : All × Option String × List String :=
   match comp with
-  | "rq" => let (s, r, e) := Rq.step a.rq op impl; ({ a with rq := s }, r, e)
-  | "gen" => (a, GenX.step op, GenX.pred op impl)
-  | _ => (a, "unknown-component", none)
+  | "rq" => let (s, r, e) := Rq.step a.rq op impl; ({ a with rq := s }, some r, e.toList)
+  | "gen" => (a, some (GenX.step op), (GenX.pred op impl).toList)
+  | "e2e" => let (s, v) := E2E.step a.e2e op impl; ({ a with e2e := s }, none, v)
+  | _ => (a, some "unknown-component", [])
 
 partial def loop (h : IO.FS.Stream) (a : All) (lineNo : Nat) : IO All := do
   let line ← h.getLine
@@ -49,11 +53,11 @@ partial def loop (h : IO.FS.Stream) (a : All) (lineNo : Nat) : IO All := do
     let mut a := { a with cnt := { a.cnt with lines := a.cnt.lines + 1 } }
     let implS := " ".intercalate impl
     -- the property predicate looks only at the implementation's results: always evaluated
-    if let some msg := e then
-      IO.println s!"PVIOL {lineNo} {comp} | {" ".intercalate op} | {msg}"
+    for msg in e do
+      IO.println s!"PVIOL {lineNo} {comp} | {" ".intercalate (op.take 6)} | {msg}"
       a := { a with cnt := { a.cnt with pviol := a.cnt.pviol + 1 } }
     -- L0 correspondence: compared until the first difference, re-synchronised at the next `new`
-    if !wasDesync then
+    if let some r := r then if !wasDesync then
       a := { a with cnt := { a.cnt with compared := a.cnt.compared + 1 } }
       if r != implS then
         IO.println s!"DIFF {lineNo} {comp} | {" ".intercalate op} | impl={implS} | model={r}"
